@@ -92,8 +92,9 @@ type Frame struct {
 
 // Recorder is an mtproto.Handler that records OnMessage payloads.
 type Recorder struct {
-	mu   sync.Mutex
-	Msgs [][]byte
+	mu       sync.Mutex
+	Msgs     [][]byte
+	Sessions []mtproto.Session // OnSession arguments (session() at new_session_created)
 }
 
 func (r *Recorder) OnMessage(b *bin.Buffer) error {
@@ -102,7 +103,22 @@ func (r *Recorder) OnMessage(b *bin.Buffer) error {
 	r.mu.Unlock()
 	return nil
 }
-func (r *Recorder) OnSession(mtproto.Session) error { return nil }
+func (r *Recorder) OnSession(s mtproto.Session) error {
+	r.mu.Lock()
+	r.Sessions = append(r.Sessions, s)
+	r.mu.Unlock()
+	return nil
+}
+
+// LastSession returns the most recent OnSession argument.
+func (r *Recorder) LastSession() (mtproto.Session, bool) {
+	r.mu.Lock()
+	defer r.mu.Unlock()
+	if len(r.Sessions) == 0 {
+		return mtproto.Session{}, false
+	}
+	return r.Sessions[len(r.Sessions)-1], true
+}
 func (r *Recorder) Count() int {
 	r.mu.Lock()
 	defer r.mu.Unlock()
